@@ -79,6 +79,12 @@ INVISIBLE_EDITS = [
     lambda r, h: ('<title>%s</title>' % r.choice(htmlgen.WORDS)) + h if '<title>' not in h else
     h.replace('<title>', '<title>%s ' % r.choice(htmlgen.WORDS)),
     lambda r, h: h.replace('<p', '<!--x--><p', 1),
+    # markup the HTML parser turns into comment nodes although the source has no "<!--": processing instructions, declarations,
+    # CDATA sections outside foreign content, end tags with a blank name
+    lambda r, h: h.replace('<p', '<?php echo "%s"; ?><p' % r.choice(htmlgen.WORDS), 1),
+    lambda r, h: h.replace('<p', '<!ELEMENT %s><p' % r.choice(htmlgen.WORDS), 1),
+    lambda r, h: h.replace('<p', '<![CDATA[%s]]><p' % r.choice(htmlgen.WORDS), 1),
+    lambda r, h: h.replace('<p', '</ %s><p' % r.choice(htmlgen.WORDS), 1),
 ]
 
 
